@@ -254,7 +254,7 @@ theorem belowMinR_translate (fx : FX R) (K : ConstsR R) (s : StateR R) (t : V3 R
 theorem cellIterationR_translate (fn : Fn R) (fx : FX R) (K : ConstsR R) (s : StateR R) (t : V3 R)
     (hok : stepOkR fn fx K s = true) :
     cellIterationR fn fx K (translateR t s) = (cellIterationR fn fx K s).map (translateR t) := by
-  unfold stepOkR at hok
+  unfold stepOkR stepOkFrom at hok
   simp only [Bool.and_eq_true] at hok
   obtain ⟨⟨_, hl⟩, hm⟩ := hok
   unfold cellIterationR
@@ -271,7 +271,7 @@ theorem cellIterationR_translate (fn : Fn R) (fx : FX R) (K : ConstsR R) (s : St
 /-- **the domain predicate is the same statement about the translated state** -/
 theorem stepOkR_translate (fn : Fn R) (fx : FX R) (K : ConstsR R) (s : StateR R) (t : V3 R) :
     stepOkR fn fx K (translateR t s) = stepOkR fn fx K s := by
-  unfold stepOkR
+  unfold stepOkR stepOkFrom
   rw [refineLiveR_translate]
   have hr : readyR K (translateR t s) = readyR K s := rfl
   rw [hr]
